@@ -51,7 +51,7 @@ def bounds(tier):
                         QuerySet=[[], ["*"], ["grp", "*"], ["grp", "b"], ["grp", "sub", "*"], ["grp", "sub", "d"],
                                   ["zz", "*"], ["a"], ["grp"], ["Size2", "*"]],
                         TagSelSet=[[], ["t1"], ["t2"], ["t3"], ["t1", "t2"], ["t1", "t3"]]),
-            history=dict(MaxCalls=4, AltCalls=4, HistSelects=HIST_SELECTS), chain=dict(MaxChain=3))
+            history=dict(MaxCalls=4, AltCalls=6, HistSelects=HIST_SELECTS), chain=dict(MaxChain=3))
     return dict(
         types=dict(Shapes=[[], [2], [3], [2, 3], [3, 2], [2, 2], [2, 2, 2], [2, 1, 3]], SecShapes=[[], [2, 3]],
                    ModShapes=[[], [2], [2, 3]], LongShapes=[[48]],
